@@ -29,10 +29,14 @@ def strings(chars, maxlen):
             yield "".join(tup)
 
 
+WIDE_SPELLINGS = [str(2**53 + 1), "+9_007_199_254_740_993", str(10**17 + 1), str(2**64 - 1), "-" + str(2**53 + 1), "000" + str(2**63 + 1), " " + str(2**53 + 3) + " ", str(10**30 + 1)]
+
+
 def header_values():
     from mysensors.const_22 import Internal, MessageType
 
-    return [-1, 0, 1, 255, 256, 2**31, True, MessageType.set, Internal.I_ID_RESPONSE]
+    # 2^53+1 and 2^64-1: integers no binary double represents exactly (a decoder that goes through float() rounds them)
+    return [-1, 0, 1, 255, 256, 2**31, 2**53 + 1, 2**64 - 1, True, MessageType.set, Internal.I_ID_RESPONSE]
 
 
 def fields_of(msg):
@@ -227,6 +231,13 @@ def run(tier):
                 parts[pos] = sp
                 for end in endings:
                     lines.append(";".join(parts) + ";x" + end)
+    # wide integers in every position, in several spellings int() accepts (beyond what a double or a machine word holds)
+    for pos in range(5):
+        for sp in WIDE_SPELLINGS:
+            parts = ["1"] * 5
+            parts[pos] = sp
+            lines.append(";".join(parts) + ";x\n")
+    lines.append(";".join(WIDE_SPELLINGS[:5]) + ";x\n")
     for p in dec_payloads:
         for end in endings:
             lines.append("1;0;1;0;2;" + p + end)
@@ -239,6 +250,7 @@ def run(tier):
     for p in payloads[:: max(1, len(payloads) // 92)]:
         bases.append((1, 0, 1, 0, 47, p))
     bases = bases[:200]
+    bases.append((2**53 + 1, 10**17 + 1, 1, 0, 2**64 - 1, "wide"))
     from mysensors.const_22 import MessageType
 
     bases.append((1, 0, MessageType.set, 0, 2, "enum"))
@@ -249,9 +261,9 @@ def run(tier):
     cov["evaluations"] = stats["encode_cases"] + stats["decode_cases"] + stats["copy_cases"]
     cov["distinct_nontrivial"] = len(set(enc_cases and [repr(c) for c in enc_cases])) + stats["decode_accepted"] + stats["copy_cases"]
     cov["rule"] = (
-        "encode side: header values {-1,0,1,255,256,2^31,True,IntEnum members} pairwise in all five positions plus the full "
+        "encode side: header values {-1,0,1,255,256,2^31,2^53+1,2^64-1,True,IntEnum members} pairwise in all five positions plus the full "
         f"product over {{-1,0,255,256}}, payloads = every string over a 13-character alphabet up to length {maxlen} that the wire "
-        "can carry; decode side: every int()-style spelling over 8 characters up to length 3 in each position x line endings, "
+        "can carry; decode side: every int()-style spelling over 8 characters up to length 3 in each position x line endings, plus 8 wide-integer spellings (2^53+1 .. 2^64-1, signs, underscores, leading zeros) in each position, "
         "payload strings incl. excluded characters; copy(): all 64 field subsets x 3 replacement values x base messages; "
         "non-trivial = distinct encode cases + accepted decode lines + copy cases"
     )
